@@ -542,9 +542,11 @@ pub(crate) mod verif_c01 {
 
     #[kani::proof]
     fn d_named_methods() {
-        script(Reply::Some_, Reply::Natural);
+        // a unit struct carries no nested value: the JSON and Smile deserializers can only answer with visit_unit, so all
+        // that is required is that the request reaches the inner method and the answer reaches the visitor
+        script(Reply::Unit, Reply::Natural);
         assert!(Override::<_, VB>::new(Src(0)).deserialize_unit_struct("Nm", UV).is_ok());
-        assert!(n() == 5 && at(0) == Ev::M(UNIT_STRUCT, 2, 0) && at(1) == Ev::VSome && value_probe_at(2));
+        assert!(n() == 2 && at(0) == Ev::M(UNIT_STRUCT, 2, 0) && at(1) == Ev::VUnit);
         script(Reply::Some_, Reply::Natural);
         assert!(Override::<_, VB>::new(Src(0)).deserialize_newtype_struct("Nm", UV).is_ok());
         assert!(n() == 5 && at(0) == Ev::M(NEWTYPE_STRUCT, 2, 0) && at(1) == Ev::VSome && value_probe_at(2));
@@ -893,9 +895,9 @@ pub(crate) mod verif_c01 {
     fn entry_named_methods() {
         let mut e = EntryD(SrcM);
         let len: usize = kani::any();
-        script(Reply::Some_, Reply::Natural);
+        script(Reply::Unit, Reply::Natural);
         assert!(de::Deserializer::deserialize_unit_struct(&mut e, "Nm", UV).is_ok());
-        assert!(n() == 5 && at(0) == Ev::M(UNIT_STRUCT, 2, 0) && at(1) == Ev::VSome && value_probe_at(2));
+        assert!(n() == 2 && at(0) == Ev::M(UNIT_STRUCT, 2, 0) && at(1) == Ev::VUnit);
         script(Reply::Some_, Reply::Natural);
         assert!(de::Deserializer::deserialize_newtype_struct(&mut e, "Nm", UV).is_ok());
         assert!(n() == 5 && at(0) == Ev::M(NEWTYPE_STRUCT, 2, 0) && at(1) == Ev::VSome && value_probe_at(2));
